@@ -37,7 +37,7 @@ func (c20) Count(tier string) int {
 	if tier == "thorough" {
 		return 1200
 	}
-	return 90
+	return 260
 }
 
 type c20Query struct {
@@ -60,7 +60,10 @@ func c20Family(rng *rand.Rand, fam int, variant int) c20Query {
 	cst := []string{"1", "2", "3"}[variant%3]
 	n := 1 + (fam+variant)%3
 	N := strconv.Itoa(n)
-	switch fam % 6 {
+	switch fam % 7 {
+	case 6: // texts that differ in the letter case of a literal only
+		lit := []string{"-zone", "-ZONE", "-Zone"}[variant%3]
+		return c20Query{sql: "SELECT id, concat(upper(k), '" + lit + "') AS cz FROM stream", kind: "expr"}
 	case 0:
 		return c20Query{sql: "SELECT id, upper(" + col + ") AS u FROM stream", kind: "expr"}
 	case 1:
@@ -80,7 +83,7 @@ func c20Queries(rng *rand.Rand) c20Query {
 	n := 1 + rng.Intn(3)
 	N := strconv.Itoa(n)
 	if rng.Intn(4) == 0 {
-		return c20Family(rng, rng.Intn(6), rng.Intn(6))
+		return c20Family(rng, rng.Intn(7), rng.Intn(6))
 	}
 	pool := []c20Query{
 		{sql: "SELECT id, lag(v) AS p FROM stream", kind: "analytic-select", analytic: []string{"p"}},
@@ -103,6 +106,9 @@ func c20Queries(rng *rand.Rand) c20Query {
 		// expressions over two bare columns: how they are evaluated depends on the row's value types
 		{sql: "SELECT id, v + w AS s FROM stream", kind: "expr"},
 		{sql: "SELECT *, v / 4 AS r FROM stream", kind: "expr"},
+		{sql: "SELECT id, k, unnest(l) AS e FROM stream", kind: "unnest"},
+		{sql: "SELECT id, changed_cols('c_', true, v, k) FROM stream", kind: "analytic-multi", analytic: []string{"changed_cols('c_', true, v, k)"}, multi: []bool{true}},
+		{sql: "SELECT id, k, changed_cols('c_', true, v) FROM stream", kind: "analytic-multi", analytic: []string{"changed_cols('c_', true, v)"}, multi: []bool{true}},
 		{sql: "SELECT id, CASE WHEN v > 5 THEN 'hi' WHEN w > 5 THEN 'mid' ELSE 'lo' END AS r FROM stream", kind: "expr"},
 		{sql: "SELECT k, sum(v + w) AS s, max(v + w) AS m, count(*) AS c FROM stream GROUP BY k, CountingWindow(" + N + ")", kind: "window", window: n, group: []string{"k"}},
 		{sql: "SELECT s.id, m.loc FROM stream s JOIN meta m ON s.dev = m.dev", kind: "join", join: true},
@@ -232,12 +238,24 @@ func (c20) Gen(rng *rand.Rand, tier string, idx int) Case {
 		qa = []c20Query{
 			{sql: "SELECT id, v + w AS s FROM stream", kind: "expr"},
 		{sql: "SELECT *, v / 4 AS r FROM stream", kind: "expr"},
+		{sql: "SELECT id, k, unnest(l) AS e FROM stream", kind: "unnest"},
+		{sql: "SELECT id, changed_cols('c_', true, v, k) FROM stream", kind: "analytic-multi", analytic: []string{"changed_cols('c_', true, v, k)"}, multi: []bool{true}},
+		{sql: "SELECT id, k, changed_cols('c_', true, v) FROM stream", kind: "analytic-multi", analytic: []string{"changed_cols('c_', true, v)"}, multi: []bool{true}},
 		{sql: "SELECT id, CASE WHEN v > 5 THEN 'hi' WHEN w > 5 THEN 'mid' ELSE 'lo' END AS r FROM stream", kind: "expr"},
 			{sql: "SELECT k, sum(v + w) AS s, max(v + w) AS m, count(*) AS c FROM stream GROUP BY k, CountingWindow(" + N + ")", kind: "window", window: n, group: []string{"k"}},
 			{sql: "SELECT count(*) AS c, sum(v + w) AS s FROM stream GROUP BY CountingWindow(" + N + ")", kind: "window", window: n},
 		}[rng.Intn(3)]
 		qb = qa
 		c.Stat = append(c.Stat, "pair-same-sql")
+	} else if rng.Intn(10) == 0 {
+		// two instances whose expression texts differ in letter case only (a literal, or a column: k / K)
+		v := rng.Intn(3)
+		qa, qb = c20Family(rng, 6, v), c20Family(rng, 6, v+1+rng.Intn(2))
+		if rng.Intn(3) == 0 {
+			qa = c20Query{sql: "SELECT id, lower(k) AS lk FROM stream", kind: "expr"}
+			qb = c20Query{sql: "SELECT id, lower(K) AS lk FROM stream", kind: "expr"}
+		}
+		c.Stat = append(c.Stat, "pair-case-twin-sql")
 	} else if k := rng.Intn(8); k < 2 {
 		qb = qa // same SQL in both instances
 		c.Stat = append(c.Stat, "pair-same-sql")
@@ -250,26 +268,35 @@ func (c20) Gen(rng *rand.Rand, tier string, idx int) Case {
 		c.Stat = append(c.Stat, "pair-different-sql")
 	}
 	c.Stat = append(c.Stat, "kind-"+qa.kind)
+	mkRow := func(id int) map[string]interface{} {
+		r := c20Row(rng, id)
+		if qa.kind == "unnest" || qb.kind == "unnest" {
+			// an array of objects in every row: unnest expands it next to the other selected columns, and the
+			// elements are the caller's own nested maps
+			r["l"] = []interface{}{map[string]interface{}{"x": id, "y": "e"}, map[string]interface{}{"x": id + 1}}
+		}
+		return r
+	}
 	c.Cfg = append(c.Cfg, []string{"sql", hx(qa.sql)}, qa.tokens("q"), []string{"sql2", hx(qb.sql)}, qb.tokens("q2"))
 	id := 1
 	if qa.window == 0 {
 		for i := 0; i < 2+rng.Intn(4); i++ {
-			c.Ops = append(c.Ops, append([]string{"emitsync"}, c05EncRow(c20Row(rng, id))...))
+			c.Ops = append(c.Ops, append([]string{"emitsync"}, c05EncRow(mkRow(id))...))
 			id++
 		}
 	}
 	var rows []map[string]interface{}
 	for i := 0; i < 3+rng.Intn(6); i++ {
-		rows = append(rows, c20Row(rng, id))
+		rows = append(rows, mkRow(id))
 		id++
 	}
 	c.Ops = append(c.Ops, append([]string{"emitall"}, c20RowsTok(rows)...))
 	var ra, rb []map[string]interface{}
 	for i := 0; i < 3+rng.Intn(5); i++ {
-		ra = append(ra, c20Row(rng, 100+i))
+		ra = append(ra, mkRow(100+i))
 	}
 	for i := 0; i < 3+rng.Intn(5); i++ {
-		rb = append(rb, c20Row(rng, 200+i))
+		rb = append(rb, mkRow(200+i))
 	}
 	if skew || rng.Intn(5) == 0 {
 		// type skew: instance A sees its numeric columns as decimal strings, instance B as numbers —
